@@ -56,6 +56,18 @@ def outcomeOfJoin : Rs.Poll (List Nat) → Outcome
   | .pending => .pending
   | .ready vs => .ready true vs
 
+/-- the model outcome a returned `Poll<Result<Vec<T>, E>>` stands for -/
+def outcomeOfTryJoin : Rs.Poll (Rs.Result (List Nat)) → Outcome
+  | .pending => .pending
+  | .ready (.ok vs) => .ready true vs
+  | .ready (.err e) => .ready false [e]
+
+/-- the model outcome a returned `Poll<Option<Vec<Item>>>` (a row) stands for -/
+def outcomeOfZip : Rs.Poll (Option (List Nat)) → Outcome
+  | .pending => .pending
+  | .ready none => .none
+  | .ready (some row) => .some 0 row
+
 namespace TieJoinV
 
 /-- what the two sides agree on after the poll that COMPLETES the join: the crate moves the outputs out of their slots
@@ -67,5 +79,17 @@ def doneAgree (a m : Eng Fix) : Prop :=
     a.s.dead = true ∧ m.s.dead = true ∧ ∀ i, a.s.out i = none
 
 end TieJoinV
+
+namespace TieTryJoinV
+
+/-- what is compared after a poll that COMPLETED with `Ok`: everything of `jcore` except the output slots (`OutputVec::take`
+    moved the values out to the caller and leaves the slots empty, the model's `finish` keeps its copies), and the state
+    table on the slots of the combinator only (`iter_mut().for_each(set_none)` rewrites the `len` slots that exist, the
+    model's `finish` writes `fun _ => .none`) -/
+def jcoreDone (n : Nat) (a m : Eng Fix) : Prop :=
+  a.w.mode = m.w.mode ∧ a.w.cap = m.w.cap ∧ a.w.bits = m.w.bits ∧ a.w.count = m.w.count ∧ a.w.parent = m.w.parent ∧
+  a.s.n = m.s.n ∧ (∀ i, i < n → a.s.st i = m.s.st i) ∧ a.s.cnt = m.s.cnt ∧ a.s.off = m.s.off ∧ a.s.dead = m.s.dead
+
+end TieTryJoinV
 
 end Fc
